@@ -12,14 +12,14 @@ from vf.scorers import SCORER_NAMES, make_scorer
 from vf.spec import S, build, make_index, short
 from vf.zoo import DETECTORS, random_detector
 
-SHARDS = {"quick": 8, "thorough": 16}
+SHARDS = {"quick": 16, "thorough": 16}
 WATCHDOG = {"quick": 1800, "thorough": 10800}
 HISTORIES = {"quick": 5, "thorough": 60}
 OPS = {"quick": (40, 90), "thorough": (60, 200)}
 FLOORS = {
-    "quick": {"distinct_nontrivial": 300, "output_events_compared": 600, "twins_built": 2000,
-              "K3_evaluations": 3000, "events_after_other_data": 400, "events_on_sharing_objects": 80,
-              "update_events": 25, "set_params_events": 15, "clone_events": 15},
+    "quick": {"distinct_nontrivial": 940, "output_events_compared": 1100, "twins_built": 3700,
+              "K3_evaluations": 1100000, "events_after_other_data": 940, "events_on_sharing_objects": 340,
+              "update_events": 59, "set_params_events": 62, "clone_events": 51},
     "thorough": {"distinct_nontrivial": 6000, "output_events_compared": 15000},
 }
 ANCHORS = [
@@ -129,6 +129,18 @@ def build_twins(o, ctx):
     return twins, None
 
 
+def restore_after_failure(o):
+    """A failed fit / fit_predict / fit_transform leaves the object in an unspecified state (the fit
+    part may or may not have happened).  Objects of their own are rebuilt from their recipe; an object
+    sharing a scorer with others is kept (the sharing is the point) and reset() to its post-init
+    state, which keeps the hyper-parameters - the shared scorer instance included."""
+    if not o.shared:
+        o.obj = build(o.spec)
+    else:
+        o.obj.reset()
+    o.train = None
+
+
 def call(obj, op, arg):
     try:
         if op == "scores_table":
@@ -176,7 +188,11 @@ def history(ctx, seed):
 
     # ---- pool -----------------------------------------------------------------------------------
     pool = []
-    shared_cost = build(S("L2Cost", param=None))
+    # the cost shared by several detectors: also costs whose fitted state (minimum size, data held)
+    # depends on the data they saw last (GaussianCovCost.min_size = p + 1; LazySSECost reads _X)
+    shared_spec = S(["L2Cost", "L2Cost", "GaussianVarCost", "GaussianCovCost", "LazySSECost"][
+        int(rng.integers(5))], param=None)
+    shared_cost = build(shared_spec)
     if rng.random() < 0.5:
         shared_cost.fit(datasets[0].copy())  # pre-fitted scorer passed to constructors
     for i in range(int(rng.integers(6, 13))):
@@ -203,7 +219,7 @@ def history(ctx, seed):
             key = {"PELT": "cost", "MovingWindow": "change_score", "SeededBinarySegmentation": "change_score",
                    "CircularBinarySegmentation": "anomaly_score"}[which]
             spec, _, _ = random_detector(rng, True, 3, which=which)
-            spec["kw"][key] = S("L2Cost", param=None)
+            spec["kw"][key] = copy.deepcopy(shared_spec)
             if which in ("SeededBinarySegmentation", "CircularBinarySegmentation", "PELT"):
                 spec["kw"]["min_segment_length"] = min(spec["kw"]["min_segment_length"], 3)
                 if "max_interval_length" in spec["kw"]:
@@ -308,11 +324,8 @@ def history(ctx, seed):
                     o.train = D
                     o.index_kind = "datetime" if isinstance(D.index, pd.DatetimeIndex) else "range0"
                 elif st == "exc":
-                    o.train = o.train  # a failed fit leaves the recorded training data as it was
                     # after a failed fit the object state is unspecified: rebuild it from its recipe
-                    o.obj = build(o.spec) if not o.shared else o.obj
-                    if not o.shared:
-                        o.train = None
+                    restore_after_failure(o)
                 log.append((step, short(o.spec)[:40], "fit", D.shape, st))
             elif r < 0.30 and o.train is not None and not o.shared:
                 # update with new pandas data continuing the training index
@@ -386,9 +399,8 @@ def history(ctx, seed):
                         o.train = arg
                         o.index_kind = "datetime" if isinstance(arg.index, pd.DatetimeIndex) else "range0"
                     else:
-                        if not o.shared:
-                            o.obj = build(o.spec)
-                            o.train = None
+                        # fit may have succeeded before predict/transform raised: state unspecified
+                        restore_after_failure(o)
                         continue
                     op = op[4:]
                 else:
